@@ -1,3 +1,4 @@
 prop("C02", files={"root": ["vf_c02_test.go"]}, shared={"root": J + ["vf_ids_test.go"]},
      assumptions=["reference canonical encoder (vf_json_test.go) and crypto/ed25519 are trusted",
-                  "mutations are single-member edits of the signed object outside signatures/unsigned that change the value under C01's equality"])
+                  "mutations are single-member edits of the signed object outside signatures/unsigned that change the value under C01's equality"],
+     rapidfuzz=[('root', 'C02/sign-verify', 40)])
